@@ -33,7 +33,7 @@ def _batches(tier):
               for i in range(NSHARDS)]
     else:
         ex = [("exhaustive", "-mode exhaustive -tier quick")]
-    return ex + [(mode, "-mode %s -tier %s" % (mode, tier)) for mode in ("ab", "abstar", "bytes", "nul", "adversarial")]
+    return ex + [(mode, "-mode %s -tier %s" % (mode, tier)) for mode in ("ab", "abstar", "bytes", "nul", "adversarial", "long")]
 
 
 CFG = {
@@ -51,7 +51,9 @@ CFG = {
             "verify, structure dump, and Get/Floor/Ceiling/Rank/WithPrefix/LongestPrefixOf for every key of the universe, their proper "
             "prefixes, extensions and neighbours, Select -1..n, Range/RangeSize over argument pairs, Match for patterns with 0-2 wildcards); "
             "ab / abstar: random histories over {a,b}^<=4 and {a,b,*}^<=3 with queries interleaved; bytes: arbitrary bytes incl. 00 7f 80 ff "
-            "with dense prefix relations; nul: the same with keys ending in 0x00; adversarial: prefix ladders and the full 256-fan. "
+            "with dense prefix relations; nul: the same with keys ending in 0x00; adversarial: prefix ladders and the full 256-fan; "
+            "long: keys of 7/8/9/15/16/17/24/33 bytes in clusters sharing every prefix length and first differing at every bit offset, "
+            "eight one-bit variants per byte around the 8-byte block borders, prefix chains of one long key, word pairs. "
             "A case is non-trivial when it has >= 3 effective mutations and at least one Put/Delete of a key that is a proper prefix or "
             "extension of a held key; distinct = distinct (implementation, mutator sequence).",
     "assumptions": ["Go int arithmetic does not overflow (sizes, ranks and bit positions stay below 2^31)",
